@@ -528,10 +528,14 @@ impl WorldGen {
                             if self.r.chance(30) && ids.len() > 1 {
                                 ids.truncate(1);
                             }
-                            if self.r.chance(25) {
-                                // the same id twice
+                            if self.r.chance(35) {
+                                // the same id twice: next to itself or with other ids in between, at either end
                                 let d = ids[self.r.below(ids.len() as u64) as usize];
-                                ids.push(d);
+                                if self.r.chance(50) {
+                                    ids.push(d);
+                                } else {
+                                    ids.insert(0, d);
+                                }
                             }
                             (admin.clone(), format!("- {} {}", s_list(&ids, |x| x.to_string()), hs(&p0.receiver)))
                         } else {
@@ -843,6 +847,46 @@ impl WorldGen {
         self.w.faucet(&u, D, 1_000_000);
         self.w.tick(1_000_000_000);
         self.w.exec(Some(1), &u, vec![Coin::new(5000u128, D)], "stake - - -");
+    }
+
+    /// Several refunded transfers toward one receiver, then admin-forced recoveries naming one of them twice with
+    /// another in between, at the end, and next to itself; then an honest forced recovery of what is left.
+    pub fn scripted_forced_duplicates(&mut self) {
+        let admin = self.s.admin.clone();
+        let u = self.s.users[0].clone();
+        let n = 3 + self.r.below(2);
+        for k in 0..n {
+            self.w.faucet(&u, D, 1_000_000);
+            self.w.tick(1_000_000_000);
+            let a = 1000u128.max(self.s.min) + self.r.u128_upto(50_000);
+            self.w.exec(Some(k as u32), &u, vec![Coin::new(a, D)], "stake - - -");
+        }
+        let flying: Vec<u64> = self.w.chain.packets.values().filter(|p| p.state == crate::world::PState::Flight).map(|p| p.seq).collect();
+        for q in flying {
+            let o = if self.r.chance(50) { "ack_err" } else { "timeout" };
+            self.w.tick(1_000_000_000);
+            self.w.relay(q, o);
+        }
+        let v = view(&self.w.sim);
+        let staker = self.s.staker.clone();
+        let ids: Vec<u64> = v
+            .pkts
+            .iter()
+            .filter(|p| p.receiver == staker && p.amount.denom == D && p.status != staking::state::ibc::PacketLifecycleStatus::Sent)
+            .map(|p| p.sequence)
+            .collect();
+        if ids.len() >= 2 {
+            let shapes: Vec<Vec<u64>> = vec![
+                vec![ids[0], ids[1], ids[0]],
+                vec![ids[1], ids[0], ids[1], ids[0]],
+                vec![ids[0], ids[0], ids[1]],
+                ids[..2].to_vec(),
+            ];
+            for sh in shapes {
+                self.w.tick(1_000_000_000);
+                self.w.exec(None, &admin, vec![], &format!("recover - {} {}", s_list(&sh, |x| x.to_string()), hs(&staker)));
+            }
+        }
     }
 
     /// World-level observation after an event: the simulator's own ledgers, for the world monitors.
